@@ -233,6 +233,44 @@ def check(run):
     run.evaluations += nhist
     run.cov['history_checks'] = nhist
 
+    # the options handed to callees by a generated function scope, and the cache sub-key
+    from malt.operators import function_wrappers
+    from malt.impl import api as _api
+    nscope = nscope_built = 0
+    for r, u, i, fs in values:
+        o = Opt(r, u, i, fs)
+        nscope += 1
+        try:
+            sc = function_wrappers.FunctionScope('f', 'fscope', o)
+        except AssertionError:
+            continue            # NAME_SCOPES / AUTO_CONTROL_DEPS / ALL are rejected by FunctionScope (documented strip)
+        nscope_built += 1
+        c = sc.callopts
+        run.case(('scope_callopts', r, u, i, tuple(f.name for f in fs)), True)
+        if not (isinstance(c, Opt) and c.recursive == r and c.user_requested is False and c.internal_convert_user_code == r
+                and frozenset(c.optional_features) == frozenset(fs)):
+            run.fail('the options a function scope hands to its callees are not call_options() of its own options '
+                     '(recursion flag and features kept, user_requested dropped, user code allowed iff recursive)',
+                     {'value': [r, u, i, [f.name for f in fs]], 'callopts': canon(c) if isinstance(c, Opt) else repr(c)})
+    run.cov['function_scopes_built'] = nscope_built
+
+    class _Ctx(object):
+        def __init__(self, options):
+            self.options = options
+    tp = _api.PyToPy()
+    ckeys = [tp.get_caching_key(_Ctx(o)) for o in objs]
+    nk = 0
+    for a in range(len(objs)):
+        ka = ckeys[a]
+        for b in range(a, len(objs), 1 if a % 16 == 0 else 37):
+            nk += 1
+            same_key = (ka == ckeys[b]) and (hash(ka) == hash(ckeys[b]))
+            if same_key != (keys[a] == keys[b]):
+                run.fail('cache sub-keys alias two different option values (or separate two equal ones)',
+                         {'a': canon(objs[a]), 'b': canon(objs[b]), 'key_a': repr(ka)[:80], 'key_b': repr(ckeys[b])[:80]})
+    run.evaluations += nk
+    run.cov['cache_key_pairs'] = nk
+
     # PYTHONHASHSEED sweep (frozenset iteration order feeds to_ast)
     seeds = [run.seed * 7 + k + 1 for k in range(2 if run.tier == 'quick' else 10)]
     tot_orders = 0
